@@ -332,6 +332,32 @@ def fam_string(maxk):
     return build, expect
 
 
+def fam_exponent():
+    """digits{1..2} 'e' digits{1..2} then the end: a decimal with exponent is an INEXACT literal whose text is the token's text"""
+    def build(ex):
+        chars = [lexskel.char_var(ex, "c%d" % i) for i in range(5)]
+        ln = z3.Int("len")
+        a, b = z3.Int("nmant"), z3.Int("nexp")
+        ex.ctx.add(a >= 1, a <= 2, b >= 1, b <= 2, ln == a + 1 + b)
+        for i in range(5):
+            ex.ctx.add(z3.Implies(i < a, is_digit(chars[i])), z3.Implies(i == a, chars[i] == 101), z3.Implies(z3.And(i > a, i <= a + b), is_digit(chars[i])))
+        build.meta = (chars, ln, a, b)
+
+        def pyexpect(text):
+            return "R %s" % hexs(text)
+        return chars, ln, pyexpect
+
+    def expect(ex, chars, ln, tokens, status):
+        chars, ln, a, b = build.meta
+        if len(tokens) != 1 or status != "end":
+            return z3.BoolVal(False)
+        td = tokens[0][0].fields[0]
+        if not (td.variant == "Primitive" and td.fields[0].variant == "Real"):
+            return z3.BoolVal(False)
+        return z3.And(*[z3.Implies(z3.And(a == ka, b == kb), charstr_eq(td.fields[0].fields[0], chars[:ka + 1 + kb])) for ka in (1, 2) for kb in (1, 2)])
+    return build, expect
+
+
 ESCAPES = {"a": 7, "b": 8, "t": 9, "n": 10, "r": 13, '"': 34, "\\": 92, "|": 124}
 
 
@@ -391,6 +417,7 @@ def run(chk):
                   "ratios": "1..%d digits '/' 1..%d digits" % ((10, 10) if thorough else (4, 4)), "booleans / characters": "#t #f #\\x for every character x",
                   "identifiers": "an initial and up to %d subsequent characters of the identifier alphabet, then the end or a delimiter" % (3 if thorough else 2),
                   "strings": "bodies of 0..%d characters other than quote and backslash; bodies of 1..%d units, each a plain character or one of the escapes \\a \\b \\t \\n \\r \\\" \\\\ \\|, followed by the end or a closing parenthesis" % (3 if thorough else 2, 3 if thorough else 2),
+                  "decimals": "1..2 digits, e, 1..2 digits: an inexact literal with exactly that text (the value of reals is outside)",
                   "layout": "identifier, 0..2 separator characters (blank, tab, CR, LF in any mix, or a ';' comment ended by LF or CR), then '(' / identifier / digit"}
     chk.assumptions += [
         "token-level slice of C06: the lexer only; the reader's list / dotted-tail / vector / quote structure (parser.rs, pair.rs) and read_literal are outside",
@@ -399,6 +426,7 @@ def run(chk):
     ]
     fams = [("integer literals", fam_integer(10)), ("ratio literals", fam_ratio(*((10, 10) if thorough else (4, 4)))), ("booleans and characters", fam_hash()),
             ("identifiers", fam_identifier(4 if thorough else 3)), ("strings", fam_string(3 if thorough else 2)), ("two tokens and layout", fam_two_tokens())]
+    fams.append(("decimals with exponent", fam_exponent()))
     import itertools
     for k in (1, 2, 3) if thorough else (1, 2):
         for pat in itertools.product((False, True), repeat=k):
